@@ -396,7 +396,9 @@ fn run(c: &mut Case) {
         let res = raw.map(|r| r.map(|o| o.map(|t| Item::from_tag(&t))).map_err(|e| ErrRec::from(&e)));
         c.eval();
         c.count("api_calls_measured");
-        let bound = if probe_done { bound_general } else { bound };
+        // the tight bound charges the whole call to the probed element: only fair when nothing follows it in the input
+        // (a reader that looks one element ahead may allocate for the next one, within the limit, in the same call)
+        let bound = if probe_done || (payload_present as u64) > declared { bound_general } else { bound };
         c.max("peak_growth_over_allowed_x1000", win.peak * 1000 / bound);
         if win.peak > bound || win.max_request > bound {
             c.violation(
